@@ -5,7 +5,6 @@ package c03
 
 import (
 	"fmt"
-	"strings"
 	"testing"
 
 	"github.com/crillab/gophersat/solver"
@@ -50,7 +49,7 @@ func build(c Case) (*solver.Problem, *oracle.Cost, error) {
 		pb = solver.ParseCardConstrs(gs.CardConstrsOf(c.Constrs))
 	case "opb":
 		txt := texts.OPB(c.Cost, gen.Sems(c.Constrs), texts.OPBLayout{})
-		p, err := solver.ParseOPB(strings.NewReader(txt))
+		p, err := solver.ParseOPB(texts.ReaderFor(txt))
 		if err != nil {
 			return nil, nil, fmt.Errorf("ParseOPB rejects a well-formed text: %v\n%s", err, txt)
 		}
